@@ -16,7 +16,7 @@ SPEC = {
     "rule": "case = generated PROGRAM over BOOL + the 8 integer kinds with := IF CASE FOR WHILE REPEAT EXIT CONTINUE RETURN (stage S1+S2, 35 %), with 1-3 user FUNCTIONs (S4, 25 %: positional / formal calls, defaults, OUT, IN_OUT), with FUNCTION_BLOCK types and instances with state (S5, 20 %) or with one-dimensional arrays and flat structs (S3, 20 %); profiles strict / natural / wild, optionally ill-typed in exactly one place; x 3 scan cycles with input writes between cycles; plus on every run the witnesses of the recorded findings and an exhaustive 657-program matrix over all type pairs (assignment, one operator per class, unary operators, FOR control/bound, CASE selector/label); non-trivial = accepted by the real compiler and at least one cycle completed; distinct = by hash of the case's operation lines",
     "trusted_base": COMMON_TRUSTED,
     "assumptions": [
-        "ST-core fragment only: stages S1+S2 proved; S3 (1-D arrays, flat structs as PROGRAM variables), S4 (FUNCTION calls) and S5 (FB instances as PROGRAM variables) modelled and compared, frame balance proved; nested aggregates, FB instances inside FBs/functions, EN/ENO, methods, strings, REAL, time/date, references, OOP, standard functions are not modelled",
+        "ST-core fragment only: stages S1+S2 and S3 (1-D arrays, flat structs as PROGRAM variables) proved; S4 (FUNCTION calls) and S5 (FB instances as PROGRAM variables) modelled and compared, frame balance proved; nested aggregates, FB instances inside FBs/functions, EN/ENO, methods, strings, REAL, time/date, references, OOP, standard functions are not modelled",
         "the program runs as the single background PROGRAM instance (TestHarness::from_source), no tasks, no I/O bindings",
     ],
 }
@@ -26,6 +26,6 @@ replay = make_replay("C02")
 
 MANIFEST = {
     "technique": "Lean 4 refinement proof (implementation model = independently written, statically typed IEC reference) under a decidable guard + counterexamples + differential correspondence against the real runtime + the reference itself run as the oracle on the implementation's variable dumps",
-    "level_text": "Spec (Model/C02.lean) is written from docs/specs/05, 06 and IEC 61131-3, not from the Rust: statically typed, exact arithmetic in the operand type with a fault on overflow, truncating division, MOD with the sign of the dividend, short-circuit AND/OR, FOR evaluated once and tested before each iteration, RETURN as early exit. Proved in Lean: c02_refines_partial / c02_every_cycle_partial — for every program inside the guard Strict, every well-typed input trace, every budget and every cycle, the erased values of ALL variables after the cycle equal the reference's and the cycle faults exactly when, and with the fault, the reference says (also for the partial effects of a faulting cycle); c02_fault_kinds; three c02_counterexample_* theorems show the full statement is FALSE of the code as it is (untyped literals computed in DINT: missed INT overflow; RETURN in a PROGRAM; ULINT FOR bounds cast to i64) and c02_repairs_remove_the_counterexamples shows the modelled repairs remove them. Every run: correspondence as for C01, and the reference is executed on every generated program it types and compared with the implementation's dumps; a mismatch is attributed to a recorded finding only if it disappears under the modelled repair, and never inside Strict.",
-    "level_note": "The reference is my reading of the specs (choices stated in Model/C02.lean: untyped literal takes the type of its context; FOR increment is arithmetic in the control variable's type; no implicit signed/unsigned mixing). Refinement is proved for stages S1+S2 inside Strict only; outside Strict agreement is judged by the reference run as oracle. For arrays/structs (S3), FUNCTION calls (S4) and FB instances (S5) the reference does not exist yet (c02=na in the oracle): those stages are covered by the model-vs-implementation correspondence only, and their defects (named-argument case, mixed positional/formal call, return-variable case, FB omitted-input reset, FB input defaults, struct field initialisers, `**` associativity) are recorded from hand-written witnesses replayed on every run. REAL, TIME not covered. The theorems are about the hand-written models, tied to /repo by the differential run only.",
+    "level_text": "Spec (Model/C02.lean) is written from docs/specs/05, 06 and IEC 61131-3, not from the Rust: statically typed, exact arithmetic in the operand type with a fault on overflow, truncating division, MOD with the sign of the dividend, short-circuit AND/OR, FOR evaluated once and tested before each iteration, RETURN as early exit, one element per index of ARRAY[lo..hi] with a fault on a subscript outside the bounds, one component per struct field. Proved in Lean (stages S1-S3): c02_refines_partial / c02_every_cycle_partial — for every program inside the guard Strict, every well-typed input trace, every budget and every cycle, the erased values of ALL variables after the cycle equal the reference's and the cycle faults exactly when, and with the fault, the reference says (also for the partial effects of a faulting cycle); c02_fault_kinds; three c02_counterexample_* theorems show the full statement is FALSE of the code as it is (untyped literals computed in DINT: missed INT overflow; ULINT FOR bounds cast to i64; ULINT subscripts cast to i64 — `ar[u]` with u = 2^64-2 selects ar[-2]; RETURN in a PROGRAM agrees with the reference since f3b5b76 — c02_return_in_program_agrees — and is inside the guard) and c02_repairs_remove_the_counterexamples shows the modelled repairs remove them. Every run: correspondence as for C01, and the reference is executed on every generated program it types and compared with the implementation's dumps; a mismatch is attributed to a recorded finding only if it disappears under the modelled repair, and never inside Strict.",
+    "level_note": "The reference is my reading of the specs (choices stated in Model/C02.lean: untyped literal takes the type of its context; FOR increment is arithmetic in the control variable's type; no implicit signed/unsigned mixing). Refinement is proved for stages S1+S2 and S3 (one-dimensional arrays and flat structs of the PROGRAM: a subscript outside the bounds is the reference fault indexOut = IndexOutOfBounds, a constant subscript outside the bounds a static error; in `a[i] := e` the reference evaluates e before i, like the code) inside Strict only; outside Strict agreement is judged by the reference run as oracle. For FUNCTION calls (S4) and FB instances (S5) the reference does not exist yet (c02=na in the oracle): those stages are covered by the model-vs-implementation correspondence only, and their defects (named-argument case, mixed positional/formal call, return-variable case, FB omitted-input reset, FB input defaults, struct field initialisers, `**` associativity) are recorded from hand-written witnesses replayed on every run. REAL, TIME not covered. The theorems are about the hand-written models, tied to /repo by the differential run only.",
 }
